@@ -7,7 +7,8 @@ use crate::common::*;
 use crate::gen;
 use crate::json::{bytes_j, J};
 use crate::oracle;
-use crate::pma::{kind_name, Method, Pma, Variant};
+use crate::pma::{kind_name, Entry, Method, Pma, Variant};
+use crate::props::typed::Val;
 use crate::props::evlog;
 use crate::rng::Rng;
 use daachorse::MatchKind;
@@ -124,6 +125,21 @@ pub fn run_case(ctx: &mut Ctx, which: Which, idx: u64) {
         println!("case {idx}: {}", case.to_json(200, 2000).to_string());
     }
     ctx.rep.evaluations += 1;
+    ctx.rep.note("kinds", kind_name(spec.kind));
+    ctx.rep.note("workloads", case.workload);
+    if which == Which::C07 {
+        // value types of different in-memory / serialised widths (the output table is indexed
+        // unchecked too, and its restored length depends on the value width)
+        match idx % 8 {
+            0 => c07_typed::<u8>(ctx, idx, case, &mut rng),
+            1 => c07_typed::<u16>(ctx, idx, case, &mut rng),
+            2 => c07_typed::<u128>(ctx, idx, case, &mut rng),
+            3 => c07_typed::<i16>(ctx, idx, case, &mut rng),
+            4 => c07_typed::<crate::props::typed::Tri>(ctx, idx, case, &mut rng),
+            _ => c07_typed::<u32>(ctx, idx, case, &mut rng),
+        }
+        return;
+    }
     let p = match build_case(&case, spec) {
         Ok(p) => p,
         Err(e) => {
@@ -133,27 +149,47 @@ pub fn run_case(ctx: &mut Ctx, which: Which, idx: u64) {
         }
     };
     let (blocks, _) = layout_stats(&mut ctx.rep, &p, &spec);
-    ctx.rep.note("kinds", kind_name(spec.kind));
-    ctx.rep.note("workloads", case.workload);
 
     match which {
-        Which::C07 => c07(ctx, idx, &case, &p, blocks, &mut rng),
+        Which::C07 => unreachable!(),
         Which::C13 => c13(ctx, idx, &case, &p),
         Which::C15 => c15(ctx, idx, &case, &p, blocks),
     }
 }
 
+fn c07_typed<V: Val>(ctx: &mut Ctx, idx: u64, mut case: Case, rng: &mut Rng) {
+    if case.spec.entry == Entry::New && V::MAX_INDEX.map_or(false, |m| case.patterns.len() > m + 1) {
+        case.spec.entry = Entry::WithValues;
+    }
+    let spec = case.spec;
+    let vals: Vec<V> = match spec.entry {
+        Entry::New => (0..case.patterns.len()).map(|i| V::try_from(i).unwrap_or_else(|_| panic!("harness: index conversion"))).collect(),
+        Entry::WithValues => (0..case.patterns.len()).map(|_| V::from_seed(rng.next_u64())).collect(),
+    };
+    ctx.rep.note("value_types", V::NAME);
+    let p: Pma<V> = match build_guarded(spec, &case.patterns, &vals) {
+        Ok(p) => p,
+        Err(e) => {
+            ctx.rep.count("build_failed_on_valid_input", 1);
+            ctx.rep.note("build_errors", &format!("case {idx}: {e}"));
+            return;
+        }
+    };
+    let (blocks, _) = layout_stats(&mut ctx.rep, &p, &spec);
+    c07(ctx, idx, &case, &p, blocks, rng);
+}
+
 // -------------------------------------------------------------------------------------------- C07
 
-fn c07(ctx: &mut Ctx, idx: u64, case: &Case, p: &Pma<u32>, blocks: usize, rng: &mut Rng) {
+fn c07<V: Val>(ctx: &mut Ctx, idx: u64, case: &Case, p: &Pma<V>, blocks: usize, rng: &mut Rng) {
     let spec = case.spec;
     // restored twin
     let bytes = p.serialize();
-    let (q, _) = unsafe { Pma::<u32>::deserialize(spec.variant, &bytes) };
+    let (q, _) = unsafe { Pma::<V>::deserialize(spec.variant, &bytes) };
     let mut widths = std::collections::BTreeSet::new();
     for (stage, a) in [("fresh", p), ("restored from serialize() bytes", &q)] {
         // (1) closure monitor: for-all-haystacks argument for this automaton
-        let sr = structure(ctx, a, None);
+        let sr = structure_untyped(ctx, a);
         structure_stats(&mut ctx.rep, &sr);
         ctx.rep.count("automata_closed", 1);
         if !sr.closure.is_empty() {
